@@ -24,9 +24,9 @@ KOFF = 2     # the key universe of every configuration is -KOFF .. nkeys-1-KOFF 
 CONFIGS = {
     # label, nkeys, NI, emit
     "quick": [("rot", 9, 0, True), ("it1", 6, 1, True), ("it2", 4, 2, True)],
-    "thorough": [("rot", 12, 0, True), ("it1", 8, 1, True), ("it2", 5, 2, True), ("it2big", 6, 2, False)],
+    "thorough": [("rot", 13, 0, True), ("it1", 9, 1, True), ("it2", 6, 2, True), ("it3", 4, 3, True), ("it2big", 7, 2, False)],
 }
-RECORD = {"quick": (12, 800, 12), "thorough": (40, 3000, 16)}   # traces, ops, keys
+RECORD = {"quick": (12, 800, 12), "thorough": (80, 4000, 16)}   # traces, ops, keys
 
 
 def replay_cases(ctx, binary, cases, nkeys, tag, keymap="identity"):
